@@ -33,6 +33,7 @@ type Gen struct {
 	ReachedSelected bool
 	peerNom  uint32
 	nAdv     int
+	OffFamily int
 }
 
 type outstanding struct {
@@ -63,6 +64,11 @@ var remotePool = []Cand{
 	{Typ: 1, Net: 3, Addr: V4(192, 168, 1, 3, 6007), Comp: 1, TCP: 2},         // tcp passive
 	{Typ: 1, Net: 1, Addr: V4(192, 168, 66, 6, 6008), Comp: 1},                // the blockable address
 	{Typ: 1, Net: 1, Addr: V4(192, 168, 1, 1, 6000), Comp: 1, Prio: 12345678}, // same address, other priority
+	// a signalled peer-reflexive candidate with a related address, on an address the agent may also discover itself
+	{Typ: 3, Net: 1, Addr: V4(203, 0, 113, 78, 6010), Comp: 1, HasRel: true, RelIP: big.NewInt(0x0a090909), RelPort: 1},
+	// ... and a signalled host / srflx candidate on the same transport address (supersedes both)
+	{Typ: 1, Net: 1, Addr: V4(203, 0, 113, 78, 6010), Comp: 1},
+	{Typ: 2, Net: 1, Addr: V4(203, 0, 113, 77, 6005), Comp: 1, HasRel: true, RelIP: big.NewInt(0xc0a80101), RelPort: 6000},
 }
 
 // unknown sources (peer-reflexive discoveries), one of them blockable
@@ -380,6 +386,27 @@ func (g *Gen) srcAddr() (Addr, string) {
 	return unknownSrc[g.pick(len(unknownSrc))], "unknown"
 }
 
+// srcFor draws a source for a datagram arriving on local candidate l: of l's own address family
+// (a socket only receives from its family), except for a small off-family stream that exercises
+// the model/implementation correspondence only (the monitors do not judge such histories).
+func (g *Gen) srcFor(l Cand) (Addr, string) {
+	want6 := l.Net == 2 || l.Net == 4
+	for i := 0; i < 12; i++ {
+		a, k := g.srcAddr()
+		if a.V6 == want6 {
+			return a, k
+		}
+	}
+	if g.pick(3) == 0 {
+		g.OffFamily++
+		return g.srcAddr()
+	}
+	if want6 {
+		return V6(9, 6012), "unknown"
+	}
+	return unknownSrc[g.pick(3)], "unknown"
+}
+
 func (g *Gen) response() (Op, string) {
 	l, ok := g.anyLocal()
 	if !ok {
@@ -459,7 +486,7 @@ func (g *Gen) request() (Op, string) {
 	if !ok {
 		return Op{Kind: "TK"}, "tick"
 	}
-	src, kind := g.srcAddr()
+	src, kind := g.srcFor(l)
 	m := g.peerRequest()
 	tag := "req_" + kind
 	if m.Use {
@@ -500,7 +527,7 @@ func (g *Gen) otherStun() (Op, string) {
 	if !ok {
 		return Op{Kind: "TK"}, "tick"
 	}
-	src, _ := g.srcAddr()
+	src, _ := g.srcFor(l)
 	g.nextPeerTx++
 	switch g.pick(3) {
 	case 0:
@@ -524,7 +551,7 @@ func (g *Gen) data() (Op, string) {
 	if !ok {
 		return Op{Kind: "TK"}, "tick"
 	}
-	src, kind := g.srcAddr()
+	src, kind := g.srcFor(l)
 	return Op{Kind: "ID", LH: l.H, Src: src, Payload: g.payload()}, "data_" + kind
 }
 
